@@ -577,10 +577,12 @@ exactly the slice `data[position .. delivered]` of the input and the undelivered
 dropped, duplicated or invented by a failing or short read.  The same invariant is kept by every single call of
 `next`/`read`/`read_bytes`/`skip_container`/`skip_unquoted_value` (`*_inv` above), whether it succeeds or fails.
 
-Full statement (`C20_text_reader`, not proved): in addition, every successfully returned token equals the
-fault-free one (prefix of `sliceTokens data`), a fault that is reached is reported as `err io`, and a persistent
-fault always ends in an error.  These clauses are decided by the correspondence run and the implementation oracles
-`fault-swallowed`, `fault-differs`, `persistent-fault-no-error`, `position-beyond-delivered`. -/
+The remaining clauses of the full statement are proved separately: every successfully returned token equals the
+fault-free one (prefix of `sliceTokens data`) — `C20_text_reader` below; a fault that is reached is reported as `err io` —
+`C20_reached_fault_is_error`, `C20_call_fault_is_error`; a persistent fault always ends in an error —
+`C20_text_persistent_fault_errors`, `C20_text_doomed_call`.  The one clause that does NOT hold across a retry is recorded:
+`C20_known_fault_retry_in_quoted`.  (On the real code: the oracles `fault-swallowed`, `fault-differs`,
+`persistent-fault-no-error`, `position-beyond-delivered`.) -/
 theorem C20_text_reader_partial (cap : Nat) (hc : 0 < cap) (sched : List Step) (data : Bytes) (fuel n : Nat) :
     let fin := (lexAll fuel n (fromReader cap sched data) []).final
     fin.position ≤ fin.src.delivered ∧
@@ -608,9 +610,10 @@ error) either
   at a clean end (the faults were never reached).
 
 Moreover a fault-free schedule never produces an I/O error.  (Position ≤ delivered and the window invariant:
-`C20_text_reader_partial`.  Not proved here: that a *reached* persistent fault always ends in an error — immediate from
-`Rel.fill`'s first alternative for a single call, but not stated for whole runs —, and the same clauses for
-`skip_container` / `read_bytes`; those are decided by the correspondence run and the fault oracles.) -/
+`C20_text_reader_partial`.  That a *reached* fault — in particular a persistent one — always ends in an error, for whole
+runs: `C20_reached_fault_is_error`, `C20_text_persistent_fault_errors` at the end of this file; the same clauses for
+`skip_container` / `read_bytes`: `C20_call_fault_is_error`, `C20_text_read_bytes`, and `C20_text_skip_container` in
+Proofs/TextSkip.lean.) -/
 theorem C20_text_reader (data : Bytes) (cap : Nat) (sched : List Step) (hcap : 0 < cap) (hw : WfSched sched) :
     ((StopErr (streamTokens cap sched data).out ∧ (streamTokens cap sched data).toks <+: (sliceTokens data).toks) ∨
      ((streamTokens cap sched data).toks = (sliceTokens data).toks ∧
